@@ -31,6 +31,14 @@ class Model:
     def __init__(self):
         self.objs = {}  # label -> dict, insertion ordered like World.objs
         self.alt = None  # an alternative acceptable state (narrow relaxations)
+        self.tags = {}  # label -> the immutable tag given at creation
+
+    def rejects(self, u, v):
+        """
+        egsim.classes.RejectingUniverse admits a vertex through the base class
+        and then removes it again when its tag is 5: net effect, no membership.
+        """
+        return self.objs[u].get("cls") == "RejectingUniverse" and self.tags.get(v) == 5
 
     # -- helpers -----------------------------------------------------------------
     def copy_state(self):
@@ -133,7 +141,9 @@ class Model:
     def m_mk_vertex(self, op):
         new = op["new"]
         d = self._new_vertex(new, op.get("cls", "Vertex"))
+        self.tags[new] = op.get("tag", 0)
         unis = list(dict.fromkeys(op.get("universes") or []))
+        unis = [u for u in unis if not self.rejects(u, new)]
         d["universes"] = list(unis)
         for l in op.get("links") or []:
             if l not in d["links"]:
@@ -148,6 +158,7 @@ class Model:
     def m_mk_universe(self, op):
         new = op["new"]
         d = self._new_vertex(new, op.get("cls", "Universe"), "u")
+        self.tags[new] = op.get("tag", 0)
         temps = {}
         if op.get("laws") is None:
             t = f"#tmpL:{new}"
@@ -156,6 +167,8 @@ class Model:
         else:
             raise NotImplementedError("model: Universe(laws=) belongs to C19")
         for v in op.get("vertices") or []:
+            if self.rejects(new, v):
+                continue
             if v not in d["members"]:
                 d["members"].append(v)
                 if new not in self.objs[v]["universes"]:
@@ -276,6 +289,8 @@ class Model:
 
     # universes ---------------------------------------------------------------------
     def _join(self, u, v):
+        if self.rejects(u, v):
+            return
         if v not in self.objs[u]["members"]:
             self.objs[u]["members"].append(v)
         if u not in self.objs[v]["universes"]:
@@ -287,6 +302,8 @@ class Model:
 
     def m_v_add_uni(self, op):
         u, v = op["u"], op["v"]
+        if self.rejects(u, v):
+            return ("ret", None)
         # vertex side first, then the universe side
         if u not in self.objs[v]["universes"]:
             self.objs[v]["universes"].append(u)
